@@ -12,8 +12,8 @@ import (
 
 	"github.com/gogo/protobuf/proto"
 
-	sm "github.com/tendermint/tendermint/state"
 	tmproto "github.com/tendermint/tendermint/proto/tendermint/types"
+	sm "github.com/tendermint/tendermint/state"
 	"github.com/tendermint/tendermint/types"
 )
 
@@ -112,6 +112,21 @@ func auditHeights(base, height int64, full bool) []int64 {
 	return hs
 }
 
+type skipHeight struct{}
+
+// failer wraps env.Fail for the per-height checks: when Fail returns (known finding) the
+// remaining checks of that height, which would dereference what is missing, are skipped.
+type failer struct {
+	e interface {
+		Fail(prop, sig, format string, a ...any)
+	}
+}
+
+func (f failer) Fail(prop, sig, format string, a ...any) {
+	f.e.Fail(prop, sig, format, a...)
+	panic(skipHeight{})
+}
+
 type auditOpts struct {
 	full bool
 	post bool // after the handshake: the state store must be level with the block store
@@ -176,128 +191,139 @@ func (s *sim) audit(n *node, ctx string, o auditOpts) {
 		hs = nil
 	}
 	for _, h := range hs {
-		rec := s.blockAt(h)
-		if rec == nil {
-			e.Fail("C18", "unknown-block", "%s: store range [%d,%d] contains height %d that was never decided", ctx, base, height, h)
-		}
-		meta := bs.LoadBlockMeta(h)
-		if meta == nil {
-			sig := "meta-missing"
-			if h == base {
-				sig = "base-block-missing"
+		func() {
+			// a failure that is a listed known finding returns from e.Fail: skip the rest of the height
+			defer func() {
+				if r := recover(); r != nil {
+					if _, ok := r.(skipHeight); !ok {
+						panic(r)
+					}
+				}
+			}()
+			e := failer{s.env}
+			rec := s.blockAt(h)
+			if rec == nil {
+				e.Fail("C18", "unknown-block", "%s: store range [%d,%d] contains height %d that was never decided", ctx, base, height, h)
 			}
-			e.Fail("C18", sig, "%s: no block meta for height %d in [%d,%d]", ctx, h, base, height)
-		}
-		if meta.Header.Height != h {
-			e.Fail("C18", "meta-mismatch", "%s: meta of height %d carries a header of height %d", ctx, h, meta.Header.Height)
-		}
-		psh := meta.BlockID.PartSetHeader
-		ps := types.NewPartSetFromHeader(psh)
-		for i := 0; i < int(psh.Total); i++ {
-			part := bs.LoadBlockPart(h, i)
-			if part == nil {
-				e.Fail("C18", "part-missing", "%s: part %d/%d of height %d in [%d,%d] cannot be loaded", ctx, i, psh.Total, h, base, height)
+			meta := bs.LoadBlockMeta(h)
+			if meta == nil {
+				sig := "meta-missing"
+				if h == base {
+					sig = "base-block-missing"
+				}
+				e.Fail("C18", sig, "%s: no block meta for height %d in [%d,%d]", ctx, h, base, height)
 			}
-			if int(part.Index) != i {
-				e.Fail("C18", "part-mismatch", "%s: part %d of height %d carries index %d", ctx, i, h, part.Index)
+			if meta.Header.Height != h {
+				e.Fail("C18", "meta-mismatch", "%s: meta of height %d carries a header of height %d", ctx, h, meta.Header.Height)
 			}
-			if _, err := ps.AddPart(part); err != nil {
-				e.Fail("C18", "part-mismatch", "%s: part %d of height %d does not belong to the part set of the meta: %v", ctx, i, h, err)
-			}
-		}
-		if !ps.IsComplete() {
-			e.Fail("C18", "part-mismatch", "%s: parts of height %d do not complete the part set", ctx, h)
-		}
-		block := carried
-		if carried == nil || carriedH != h {
-			block = bs.LoadBlock(h)
-		}
-		carried = nil
-		if block == nil {
-			e.Fail("C18", "block-missing", "%s: block %d in [%d,%d] cannot be loaded although its meta can", ctx, h, base, height)
-		}
-		if !bytes.Equal(block.Hash(), meta.BlockID.Hash) {
-			e.Fail("C18", "hash-mismatch", "%s: block %d hashes to %X, its id says %X", ctx, h, block.Hash(), meta.BlockID.Hash)
-		}
-		if !bytes.Equal(meta.Header.Hash(), meta.BlockID.Hash) || meta.NumTxs != len(block.Txs) {
-			e.Fail("C18", "meta-mismatch", "%s: meta of height %d disagrees with the block (header hash / tx count)", ctx, h)
-		}
-		raw, _ := io.ReadAll(ps.GetReader())
-		pb, err := block.ToProto()
-		if err != nil {
-			e.Fail("C18", "block-mismatch", "%s: block %d: %v", ctx, h, err)
-		}
-		enc, _ := proto.Marshal(pb)
-		if !bytes.Equal(raw, enc) {
-			e.Fail("C18", "part-mismatch", "%s: parts of height %d reassemble to %d bytes that are not the block (%d bytes)", ctx, h, len(raw), len(enc))
-		}
-		if !bytes.Equal(rec.id.Hash, meta.BlockID.Hash) || !rec.id.PartSetHeader.Equals(psh) {
-			e.Fail("C18", "wrong-block", "%s: height %d holds block %X, the decided block was %X", ctx, h, meta.BlockID.Hash, rec.id.Hash)
-		}
-		byHash := bs.LoadBlockByHash(meta.BlockID.Hash)
-		if byHash == nil {
-			e.Fail("C18", "hash-index-missing", "%s: block %d (%X) cannot be loaded by hash", ctx, h, meta.BlockID.Hash)
-		}
-		if byHash.Height != h || !bytes.Equal(byHash.Hash(), meta.BlockID.Hash) {
-			e.Fail("C18", "hash-index-mismatch", "%s: hash index of block %d leads to height %d", ctx, h, byHash.Height)
-		}
-		if prevID != nil && prevH == h-1 && !block.LastBlockID.Equals(*prevID) {
-			e.Fail("C18", "chain-broken", "%s: block %d does not refer to the stored block %d", ctx, h, h-1)
-		}
-		id := meta.BlockID
-		prevID, prevH = &id, h
-
-		// the commit for it, verified under the validator set the state store produces
-		vals, err := ss.LoadValidators(h)
-		if err != nil {
-			e.Fail("C18", "validators-missing", "%s: LoadValidators(%d) for a height in [%d,%d]: %v", ctx, h, base, height, err)
-		}
-		var commit *types.Commit
-		what := "commit"
-		if h < height {
-			commit = bs.LoadBlockCommit(h)
-			if commit == nil {
-				e.Fail("C18", "commit-missing", "%s: no commit for height %d in [%d,%d)", ctx, h, base, height)
-			}
-			next := bs.LoadBlock(h + 1)
-			carried, carriedH = next, h+1
-			if next == nil {
-				e.Fail("C18", "block-missing", "%s: block %d in [%d,%d] cannot be loaded", ctx, h+1, base, height)
-			}
-			if !commitEq(commit, next.LastCommit) {
-				e.Fail("C18", "commit-mismatch", "%s: LoadBlockCommit(%d) is not the LastCommit of block %d", ctx, h, h+1)
-			}
-		} else {
-			what = "seen commit"
-			commit = bs.LoadSeenCommit(h)
-			if commit == nil {
-				e.Fail("C18", "seen-commit-missing", "%s: no seen commit for the tip %d", ctx, h)
-			}
-			if !commitEq(commit, rec.seen) {
-				e.Fail("C18", "commit-mismatch", "%s: the seen commit of the tip %d is not the one that was saved with it", ctx, h)
-			}
-		}
-		if msg := verifyCommitRef(s.chainID, vals, meta.BlockID, h, commit); msg != "" {
-			e.Fail("C18", "commit-invalid", "%s: %s of height %d does not verify under LoadValidators(%d): %s", ctx, what, h, h, msg)
-		}
-		if !bytes.Equal(block.ValidatorsHash, vals.Hash()) {
-			e.Fail("C18", "validators-mismatch", "%s: LoadValidators(%d) does not hash to the ValidatorsHash of block %d", ctx, h, h)
-		}
-		// ABCI responses of retained, executed heights (needed to serve block results)
-		if h <= stH {
-			res, err := ss.LoadABCIResponses(h)
-			if err != nil {
-				e.Fail("C18", "abci-responses-missing", "%s: LoadABCIResponses(%d) for a height in [%d,%d]: %v", ctx, h, base, height, err)
-			}
-			if len(res.DeliverTxs) != len(block.Txs) {
-				e.Fail("C18", "abci-responses-mismatch", "%s: responses of height %d have %d tx results, the block has %d txs", ctx, h, len(res.DeliverTxs), len(block.Txs))
-			}
-			if h < height {
-				if next := s.blockAt(h + 1); next != nil && !bytes.Equal(sm.ABCIResponsesResultsHash(res), next.block.LastResultsHash) {
-					e.Fail("C18", "abci-responses-mismatch", "%s: responses of height %d do not hash to LastResultsHash of block %d", ctx, h, h+1)
+			psh := meta.BlockID.PartSetHeader
+			ps := types.NewPartSetFromHeader(psh)
+			for i := 0; i < int(psh.Total); i++ {
+				part := bs.LoadBlockPart(h, i)
+				if part == nil {
+					e.Fail("C18", "part-missing", "%s: part %d/%d of height %d in [%d,%d] cannot be loaded", ctx, i, psh.Total, h, base, height)
+				}
+				if int(part.Index) != i {
+					e.Fail("C18", "part-mismatch", "%s: part %d of height %d carries index %d", ctx, i, h, part.Index)
+				}
+				if _, err := ps.AddPart(part); err != nil {
+					e.Fail("C18", "part-mismatch", "%s: part %d of height %d does not belong to the part set of the meta: %v", ctx, i, h, err)
 				}
 			}
-		}
+			if !ps.IsComplete() {
+				e.Fail("C18", "part-mismatch", "%s: parts of height %d do not complete the part set", ctx, h)
+			}
+			block := carried
+			if carried == nil || carriedH != h {
+				block = bs.LoadBlock(h)
+			}
+			carried = nil
+			if block == nil {
+				e.Fail("C18", "block-missing", "%s: block %d in [%d,%d] cannot be loaded although its meta can", ctx, h, base, height)
+			}
+			if !bytes.Equal(block.Hash(), meta.BlockID.Hash) {
+				e.Fail("C18", "hash-mismatch", "%s: block %d hashes to %X, its id says %X", ctx, h, block.Hash(), meta.BlockID.Hash)
+			}
+			if !bytes.Equal(meta.Header.Hash(), meta.BlockID.Hash) || meta.NumTxs != len(block.Txs) {
+				e.Fail("C18", "meta-mismatch", "%s: meta of height %d disagrees with the block (header hash / tx count)", ctx, h)
+			}
+			raw, _ := io.ReadAll(ps.GetReader())
+			pb, err := block.ToProto()
+			if err != nil {
+				e.Fail("C18", "block-mismatch", "%s: block %d: %v", ctx, h, err)
+			}
+			enc, _ := proto.Marshal(pb)
+			if !bytes.Equal(raw, enc) {
+				e.Fail("C18", "part-mismatch", "%s: parts of height %d reassemble to %d bytes that are not the block (%d bytes)", ctx, h, len(raw), len(enc))
+			}
+			if !bytes.Equal(rec.id.Hash, meta.BlockID.Hash) || !rec.id.PartSetHeader.Equals(psh) {
+				e.Fail("C18", "wrong-block", "%s: height %d holds block %X, the decided block was %X", ctx, h, meta.BlockID.Hash, rec.id.Hash)
+			}
+			byHash := bs.LoadBlockByHash(meta.BlockID.Hash)
+			if byHash == nil {
+				e.Fail("C18", "hash-index-missing", "%s: block %d (%X) cannot be loaded by hash", ctx, h, meta.BlockID.Hash)
+			}
+			if byHash.Height != h || !bytes.Equal(byHash.Hash(), meta.BlockID.Hash) {
+				e.Fail("C18", "hash-index-mismatch", "%s: hash index of block %d leads to height %d", ctx, h, byHash.Height)
+			}
+			if prevID != nil && prevH == h-1 && !block.LastBlockID.Equals(*prevID) {
+				e.Fail("C18", "chain-broken", "%s: block %d does not refer to the stored block %d", ctx, h, h-1)
+			}
+			id := meta.BlockID
+			prevID, prevH = &id, h
+
+			// the commit for it, verified under the validator set the state store produces
+			vals, err := ss.LoadValidators(h)
+			if err != nil {
+				e.Fail("C18", "validators-missing", "%s: LoadValidators(%d) for a height in [%d,%d]: %v", ctx, h, base, height, err)
+			}
+			var commit *types.Commit
+			what := "commit"
+			if h < height {
+				commit = bs.LoadBlockCommit(h)
+				if commit == nil {
+					e.Fail("C18", "commit-missing", "%s: no commit for height %d in [%d,%d)", ctx, h, base, height)
+				}
+				next := bs.LoadBlock(h + 1)
+				carried, carriedH = next, h+1
+				if next == nil {
+					e.Fail("C18", "block-missing", "%s: block %d in [%d,%d] cannot be loaded", ctx, h+1, base, height)
+				}
+				if !commitEq(commit, next.LastCommit) {
+					e.Fail("C18", "commit-mismatch", "%s: LoadBlockCommit(%d) is not the LastCommit of block %d", ctx, h, h+1)
+				}
+			} else {
+				what = "seen commit"
+				commit = bs.LoadSeenCommit(h)
+				if commit == nil {
+					e.Fail("C18", "seen-commit-missing", "%s: no seen commit for the tip %d", ctx, h)
+				}
+				if !commitEq(commit, rec.seen) {
+					e.Fail("C18", "commit-mismatch", "%s: the seen commit of the tip %d is not the one that was saved with it", ctx, h)
+				}
+			}
+			if msg := verifyCommitRef(s.chainID, vals, meta.BlockID, h, commit); msg != "" {
+				e.Fail("C18", "commit-invalid", "%s: %s of height %d does not verify under LoadValidators(%d): %s", ctx, what, h, h, msg)
+			}
+			if !bytes.Equal(block.ValidatorsHash, vals.Hash()) {
+				e.Fail("C18", "validators-mismatch", "%s: LoadValidators(%d) does not hash to the ValidatorsHash of block %d", ctx, h, h)
+			}
+			// ABCI responses of retained, executed heights (needed to serve block results)
+			if h <= stH {
+				res, err := ss.LoadABCIResponses(h)
+				if err != nil {
+					e.Fail("C18", "abci-responses-missing", "%s: LoadABCIResponses(%d) for a height in [%d,%d]: %v", ctx, h, base, height, err)
+				}
+				if len(res.DeliverTxs) != len(block.Txs) {
+					e.Fail("C18", "abci-responses-mismatch", "%s: responses of height %d have %d tx results, the block has %d txs", ctx, h, len(res.DeliverTxs), len(block.Txs))
+				}
+				if h < height {
+					if next := s.blockAt(h + 1); next != nil && !bytes.Equal(sm.ABCIResponsesResultsHash(res), next.block.LastResultsHash) {
+						e.Fail("C18", "abci-responses-mismatch", "%s: responses of height %d do not hash to LastResultsHash of block %d", ctx, h, h+1)
+					}
+				}
+			}
+		}()
 	}
 	s.auditState(n, ctx, base, height, stH)
 }
